@@ -1,12 +1,26 @@
 """C02 — permanent conversions over any history.
 
 Lean: Props/C02.lean (single-step specifications, refusals leave the state unchanged, invariant over histories).
+Lean, continued: Props/C02/Combined.lean (convert(...) = its single calls in the documented order stopped at the first
+refusal, `convertAll_eq_singles`, `convertAll_refused_eq_completed_steps`, `convertAll_ok_eq_sequence`, `convertAll_no_early_refusal`;
+queries read the stored data after any history, `query_reads_stored_data`) over Model/IsoSeq.lean.
 Tie: correspondence of Model/IsoState.lean (ℚ) with PointIsotherm.convert* / convert_temperature on real
 objects: single steps from sampled (thorough: all) label states with every argument class, and seeded
 histories; after every call labels, both columns, temperature and the outcome class are compared.
 Failing-input search: the invariant itself, evaluated on the real object with the independent SI tables
 of c01.py: data = original x scale(original)/scale(current), labels accepted by the constructor, refused
 call changes nothing, untouched columns/branch/metadata/order, caches reset.
+Combined call (independent of the Lean model; the specification proved for the model in Props/C02/Combined.lean,
+`convertAll_eq_singles`): for EVERY `convert(...)` a fresh copy of the isotherm gets the single-quantity calls in the
+documented order pressure -> material -> loading; the first that refuses stops the sequence; the isotherm after the
+combined call (accepted or refused) must equal — labels, every cell, temperature, branch, extra columns — the copy on
+which exactly the earlier steps were applied singly, and it is refused iff one of the single steps is.  Family (c)
+generates combined calls with a refusing argument in each of the three positions (unknown / foreign-family basis token,
+omitted or empty unit on a changed basis, unit of another table, unknown unit, target needing a property the adsorbate
+or the material does not have) next to valid changes, repeats and absent arguments in the other positions.
+Queries (Props/C02/Combined.lean `query_reads_stored_data`): before every call both interpolator slots are filled
+(`loading_at`, `pressure_at` on a seeded branch), after it `loading_at` / `pressure_at` at a measured point must give
+the stored datum back and, with `spreading_pressure_at`, agree with a freshly constructed copy of the stored state.
 """
 import itertools
 from fractions import Fraction as Fr
@@ -76,6 +90,133 @@ def constructor_accepts(pg, iso):
         return True
     except ParameterError:
         return False
+
+
+def clone(pg, iso):
+    """A freshly constructed isotherm with the same stored state (never deepcopy)."""
+    return pg.PointIsotherm(isotherm_data=iso.data_raw.copy(), pressure_key=iso.pressure_key, loading_key=iso.loading_key, **iso.to_dict())
+
+
+def sub_steps(a):
+    """The single-quantity calls `convert(...)` documents, in its documented order; a step is issued iff one of its
+    two arguments is given (mirrors `subSteps` of Props/C02/Combined.lean)."""
+    pm, pu, lb, lu, mb, mu = a
+    return ([("P", (pm, pu))] if (pm or pu) else []) + ([("M", (mb, mu))] if (mb or mu) else []) + ([("L", (lb, lu))] if (lb or lu) else [])
+
+
+def expected_combined(ref, a):
+    """`runUntilRefused` on the real code: apply the single calls to the fresh copy `ref`; returns
+    (state the combined call must leave, refusing step or None, its error class, [(step, changed something)] completed)."""
+    done = []
+    for kind, args in sub_steps(a):
+        before = snapshot(ref)
+        try:
+            apply_op(ref, kind, args)
+        except Exception as e:  # noqa
+            return before, kind, err_class(e), done
+        done.append((kind, snapshot(ref) != before))
+    return snapshot(ref), None, None, done
+
+
+def fnum(x):
+    """float of a query result (0-d / 1-element arrays included)"""
+    import numpy as np
+    return float(np.asarray(x, dtype=float).reshape(-1)[0])
+
+
+def near(x, y, scale=0.0, rel=1e-9):
+    import math
+    if not (math.isfinite(x) and math.isfinite(y)):
+        return (math.isnan(x) and math.isnan(y)) or x == y
+    return abs(x - y) <= rel * max(abs(x), abs(y), scale)
+
+
+def branch_rows(snap, qb):
+    return [i for i, b in enumerate(snap["branch"]) if qb is None or int(b) == (0 if qb == "ads" else 1)]
+
+
+def query(iso, qb, p, l, which=(True, True, True)):
+    """loading_at / pressure_at / spreading_pressure_at with default arguments; each result is a float, ('err', class) or None (not asked)."""
+    out = []
+    for ask, f, x in zip(which, (iso.loading_at, iso.pressure_at, iso.spreading_pressure_at), (p, l, p)):
+        if not ask:
+            out.append(None)
+            continue
+        try:
+            out.append(fnum(f(x, branch=qb)))
+        except Exception as e:  # noqa
+            out.append(("err", err_class(e)))
+    return out
+
+
+LETTERS = "abcdefghijklmnopqrstuvwxyz"
+P_MODES = ["absolute", "relative", "relative%"]
+L_BASES = ["molar", "mass", "volume_gas", "volume_liquid", "fraction", "percent"]
+M_BASES = ["mass", "volume", "molar"]
+
+
+def gen_combined(rng, lab, PSTATES, LSTATES, MSTATES, refuse_at):
+    """One `convert(...)` call.  Per position (pressure, material, loading) one role: a valid target in one of the accepted
+    argument forms, a repeat of the current representation, absent, or — at `refuse_at` — an argument that names an
+    impossible target.  Whether and where the call is refused is decided by the single calls on the real code, not here."""
+    known = set(P_MODES + L_BASES + M_BASES) | set(c01.PA) | set(c01.MOL) | set(c01.GRAM) | set(c01.CM3) | {"K", "bogus"}
+
+    def unknown():
+        r = rng.random()
+        if r < 0.4:
+            while True:
+                s = "".join(rng.choice(LETTERS) for _ in range(rng.randint(2, 9)))
+                if s not in known:
+                    return s
+        if r < 0.6:
+            return rng.choice(sorted(known - {"K"})).capitalize() + "x"          # near miss of a real token
+        return None
+
+    bases = {"P": P_MODES, "L": L_BASES, "M": M_BASES}
+    states = {"P": PSTATES, "L": LSTATES, "M": MSTATES}
+    cur = {"P": (lab[0], lab[1]), "L": (lab[2], lab[3]), "M": (lab[4], lab[5])}
+    all_units = list(c01.PA) + list(c01.MOL) + list(c01.GRAM) + list(c01.CM3)
+
+    def units_of(pos, b):
+        if pos == "P":
+            return list(c01.PA) if b == "absolute" else []
+        tab = (c01.LTABLE if pos == "L" else c01.MTABLE).get(b)
+        return list(tab) if tab else []
+
+    def valid(pos):
+        b, u = rng.choice(states[pos])
+        if b == cur[pos][0] and u is not None and rng.random() < 0.4:
+            return (rng.choice([None, ""]), u)                                   # unit only: the basis / mode stays
+        return (b, u)
+
+    def refusing(pos):
+        kind = rng.choice(["basis-unknown", "basis-unknown", "basis-foreign", "unit-omitted", "unit-foreign", "unit-unknown"])
+        others = [x for q in "PLM" if q != pos for x in bases[q] if x not in bases[pos]]
+        if kind == "basis-unknown":
+            b = unknown() or rng.choice(others)
+            return (b, rng.choice([None, "", cur[pos][1]] + units_of(pos, rng.choice(bases[pos]))))
+        if kind == "basis-foreign":                                               # a token of another quantity's family
+            b = rng.choice(others)
+            return (b, rng.choice([None] + all_units))
+        b = rng.choice([x for x in bases[pos]] + [None])
+        bb = b if b else cur[pos][0]
+        if kind == "unit-omitted":
+            cand = [x for x in bases[pos] if x != cur[pos][0] and units_of(pos, x)]
+            return (rng.choice(cand) if cand else b, rng.choice([None, ""]))
+        if kind == "unit-foreign":
+            own = set(units_of(pos, bb))
+            cand = [x for x in all_units if x not in own]
+            return (b, rng.choice(cand))
+        return (b, unknown() or "bogus")
+
+    out = {}
+    for pos in "PML":
+        if pos == refuse_at:
+            out[pos] = refusing(pos)
+        else:
+            r = rng.random()
+            out[pos] = valid(pos) if r < 0.7 else ((None, None) if r < 0.85 else rng.choice([cur[pos], (cur[pos][0], None), (None, cur[pos][1])]))
+    return ("A", (out["P"][0], out["P"][1], out["L"][0], out["L"][1], out["M"][0], out["M"][1]))
 
 
 ARG_UNITS = {"pressure": list(c01.PA), "molar": list(c01.MOL), "mass": list(c01.GRAM), "volume": list(c01.CM3)}
@@ -168,6 +309,13 @@ def run(ck):
     pg.Material("pgv_mat", store=True, density=2.3, molar_mass=321.0)
     worlds = [World(pg, "stub", "pgv_stub", "pgv_mat", 77.0), World(pg, "N2", "N2", "pgv_mat", 77.355)]
     w_nodens = World(pg, "nodens", "pgv_nodens", "pgv_mat", 77.0)
+    # for the combined calls: an adsorbate without saturation pressure (no relative modes), a material without density / molar mass
+    pg.Adsorbate("pgv_nopsat", store=True, molar_mass=44.0, liquid_density=1.1, gas_density=0.0019,
+                 liquid_molar_density=1.1 / 44.0, gas_molar_density=0.0019 / 44.0)
+    pg.Material("pgv_mat_nodens", store=True, molar_mass=250.0)
+    pg.Material("pgv_mat_nomm", store=True, density=1.7)
+    w_partial = [w_nodens, World(pg, "nopsat", "pgv_nopsat", "pgv_mat", 77.0), World(pg, "matnodens", "pgv_stub", "pgv_mat_nodens", 77.0),
+                 World(pg, "matnomm", "pgv_stub", "pgv_mat_nomm", 77.0)]
 
     PSTATES = [("absolute", u) for u in c01.PA] + [("relative", None), ("relative%", None)]
     LSTATES = [(b, u) for b in ("molar", "mass", "volume_gas", "volume_liquid") for u in c01.LTABLE[b]] + [("fraction", None), ("percent", None)]
@@ -205,7 +353,29 @@ def run(ck):
             ops.append(("T", (lab[6],)))
         cases.append((w, lab, ps, ls, w.temp if lab[6] == "K" else w.temp - 273.15, ops))
 
+    n_hist_end = len(cases)
+    # --- (c) combined calls: a refusing argument in each of the three positions (or none) next to valid changes in the others
+    for i in range(ck.n(180, 1800)):
+        st = rng.choice(all_states)
+        lab = [st[0][0], st[0][1], st[1][0], st[1][1], st[2][0], st[2][1], st[3]]
+        w = rng.choice(worlds) if rng.random() < 0.7 else rng.choice(w_partial)
+        if w.props.psat is None:
+            lab[0], lab[1] = "absolute", rng.choice(list(c01.PA))          # the constructor accepts it, but nothing can be said in relative modes
+        n = rng.randint(2, 6)
+        ps = sorted(rng.uniform(0.01, 0.99) for _ in range(n))
+        ls = [rng.uniform(0.05, 5.0) for _ in range(n)]
+        refuse_at = rng.choice(["P", "M", "M", "L", "L", None])
+        ops = []
+        if rng.random() < 0.3:                                              # not always from a freshly constructed isotherm
+            ops.append(gen_op(rng, lab, False))
+        ops.append(gen_combined(rng, lab, PSTATES, LSTATES, MSTATES, refuse_at))
+        if rng.random() < 0.3:
+            ops.append(("A", (lab[0], lab[1], lab[2], lab[3], lab[4], lab[5])))
+        cases.append((w, lab, ps, ls, w.temp if lab[6] == "K" else w.temp - 273.15, ops))
+
     # ------------------------------------------------------------------ run the implementation, collect model requests
+    import time
+    t_start = time.time()
     lines, plan = [], []
     impl = []
     for ci, (w, lab, ps, ls, tval, ops) in enumerate(cases):
@@ -221,49 +391,79 @@ def run(ck):
         trace = []
         for kind, a in ops:
             before = snapshot(iso)
-            # fill the interpolator caches so that a dropped reset is observable
-            probe = None
-            try:
-                probe = float(iso.loading_at(before["p"][0], branch=None if len(set(before["branch"])) > 1 else "ads")) if len(before["p"]) > 1 else None
-            except Exception:
-                probe = None
-            had_cache = iso.l_interpolator is not None
+            # fill both interpolator slots (seeded branch) so that a dropped reset is observable by the queries afterwards
+            qb = rng.choice(sorted({"ads" if int(b) == 0 else "des" for b in before["branch"]}) + ([None] if rng.random() < 0.3 else []))
+            rows = branch_rows(before, qb)
+            qi = rng.choice(rows[1:] if len(rows) > 1 else rows)
+            query(iso, qb, before["p"][qi], before["l"][qi], which=(True, True, False))
+            # single-step family (argument classes on 3-row isotherms): the queries after the call on a seeded half; histories and combined calls: always
+            ask_after = ci >= n_single or rng.random() < 0.5
+            had = (iso.l_interpolator is not None, iso.p_interpolator is not None)
+            ref = None
+            if kind == "A":
+                try:
+                    ref = clone(pg, iso)
+                except Exception:  # noqa
+                    ref = None
             try:
                 apply_op(iso, kind, a)
                 out = "ok"
             except Exception as e:  # noqa
                 out = err_class(e)
+            has = (iso.l_interpolator is not None, iso.p_interpolator is not None)
             after = snapshot(iso)
-            trace.append((kind, a, before, out, after, had_cache, iso.l_interpolator is not None))
-            if had_cache:
-                lines.append("cache")
-                plan.append(("cache", ci, None))
+            # queries at the same measured point (same row, same branch) after the call, and on a freshly constructed copy
+            q_iso = q_fresh = None
+            if ask_after:
+                q_iso = query(iso, qb, after["p"][qi], after["l"][qi])
+                # the fresh copy answers what has no stored datum to compare with: spreading pressure always, pressure_at when the loading is not unique
+                uniq = [after["l"][i] for i in branch_rows(after, qb)].count(after["l"][qi]) == 1
+                try:
+                    q_fresh = query(clone(pg, iso), qb, after["p"][qi], after["l"][qi], which=(False, not uniq, True))
+                except Exception:  # noqa
+                    q_fresh = None
+            exp = expected_combined(ref, a) if ref is not None else None
+            trace.append((kind, a, before, out, after, had, has, (qb, qi, q_iso, q_fresh), exp))
+            lines.append("cache " + tok(had[0]) + " " + tok(had[1]))
+            plan.append(("cache", ci, None))
+            if kind == "A":
+                lines.append(" ".join(["S"] + [tok(x) for x in a]))     # Model/IsoSeq.lean: the single calls, stopped at the first refusal
+                plan.append(("seq", ci, len(trace) - 1))
             lines.append(" ".join([kind] + [tok(x) for x in a]))
             plan.append(("op", ci, len(trace) - 1))
         impl.append((ci, w, s0, trace, iso))
+    t_impl = time.time()
     try:
         replies = ck.drive("IsoState", lines)
     except Exception as e:
         replies = None
         ck.broken.append({"step": "driver IsoState", "what": str(e)[:600]})
-    rep_of = {}
+    t_drv = time.time()
+    rep_of, seq_of = {}, {}
     if replies:
         for (tag, ci, k), r in zip(plan, replies):
             if tag == "op":
                 rep_of[(ci, k)] = r
+            elif tag == "seq":
+                seq_of[(ci, k)] = r
 
     # ------------------------------------------------------------------ compare + invariant oracle
-    n_dis = 0
+    n_dis = n_dis_seq = n_seq = 0
     for ci, w, s0, trace, iso in impl:
         single = ci < n_single
+        fam = "single:" if single else ("history:" if ci < n_hist_end else "combined:")
         P = w.props
-        complete = all(P.q[k] is not None for k in P.q)
+        complete = all(P.q[k] is not None for k in P.q) and P.psat is not None and P.md is not None and P.mm is not None
+        iso_desc = {"adsorbate": s0["ads"], "material": w.mat.name, "start_labels": [str(x) for x in s0["labels"]], "pressure": s0["p"], "loading": s0["l"],
+                    "temperature": s0["t"], "branch": [int(b) for b in s0["branch"]],
+                    "calls_before": None}
         c0 = [canon(w, s0["labels"], p, l) for p, l in zip(s0["p"], s0["l"])] if complete else None
         k0 = tempK(s0["labels"], s0["t"])
-        for k, (kind, a, before, out, after, had_cache, has_cache) in enumerate(trace):
+        for k, (kind, a, before, out, after, had, has, (qb, qi, q_iso, q_fresh), exp) in enumerate(trace):
+            iso_desc["calls_before"] = [[x[0], [str(y) for y in x[1]], x[3]] for x in trace[:k]]
             changed_repr = before["labels"] != after["labels"]
             ck.count((kind, tuple(before["labels"]), a), nontrivial=(out == "ok" and (changed_repr or before["p"] != after["p"] or before["l"] != after["l"])),
-                     bucket=("single:" if single else "history:") + kind + ":" + out,
+                     bucket=fam + kind + ":" + out,
                      sample={"start": before["labels"], "op": [kind, list(a)], "outcome": out, "labels_after": after["labels"],
                              "model": rep_of.get((ci, k), "")[:160]} if (ci * 31 + k) % 977 == 0 else None)
             sig = {"op": kind, "args": [str(x) for x in a], "from": [str(x) for x in before["labels"]]}
@@ -286,6 +486,48 @@ def run(ck):
                 if before != after:
                     ck.fail_case({**sig, "clause": "refused call changed the isotherm", "outcome": out},
                                  {"before": {x: before[x] for x in ("labels", "p", "l", "t")}, "after": {x: after[x] for x in ("labels", "p", "l", "t")}})
+            # --- oracle 2c: the combined call = its single calls in the documented order, stopped at the first refusal
+            if kind == "A" and exp is not None:
+                want, ref_step, ref_err, done = exp
+                changed_before = [s for s, ch in done if ch]
+                bk = "combined-oracle:" + ("accepted" if ref_step is None else "refused-at-" + ref_step + ("-after-effective-steps" if changed_before else ""))
+                ck.cov["distribution"][bk] = ck.cov["distribution"].get(bk, 0) + 1
+                steps_txt = {"single_calls_in_order": [[s, [str(y) for y in x]] for s, x in sub_steps(a)], "completed_singly": [s for s, _ in done],
+                             "refused_singly": ref_step, "refused_singly_with": ref_err, "combined_outcome": out}
+                if (out != "ok") != (ref_step is not None):
+                    ck.fail_case({**sig, "clause": "combined call refused iff one of its single steps is", "outcome": out, "refusing_step": str(ref_step)},
+                                 {**steps_txt, "isotherm": iso_desc})
+                diff = [f for f in ("labels", "branch", "extra", "index", "props", "mat", "ads") if after[f] != want[f]]
+                diff += [f for f in ("p", "l") if len(after[f]) != len(want[f]) or not all(near(x, y, rel=1e-12) for x, y in zip(after[f], want[f]))]
+                diff += [] if near(after["t"], want["t"], rel=1e-12) else ["t"]
+                if diff:
+                    clause = ("refused combined call leaves exactly the steps completed before the refusal" if out != "ok"
+                              else "accepted combined call equals the sequence of its single calls")
+                    ck.fail_case({**sig, "clause": clause, "differs": diff, "refusing_step": str(ref_step)},
+                                 {**steps_txt, "isotherm": iso_desc,
+                                  "after_combined_call": {x: after[x] for x in ("labels", "p", "l", "t")},
+                                  "after_single_calls": {x: want[x] for x in ("labels", "p", "l", "t")}})
+            # --- oracle 2q: queries are answered from the stored data (measured point gives the stored datum; same answers as a fresh copy)
+            if q_iso is not None:
+                rows = branch_rows(after, qb)
+                sp, sl = max(abs(after["p"][i]) for i in rows), max(abs(after["l"][i]) for i in rows)
+                datum = [after["l"][qi], after["p"][qi] if [after["l"][i] for i in rows].count(after["l"][qi]) == 1 else None, None]
+                names = ["loading_at", "pressure_at", "spreading_pressure_at"]
+                for name, got, fresh, dat, scale in zip(names, q_iso, q_fresh or [None, None, None], datum, [sl, sp, 0.0]):
+                    bad = None
+                    if fresh is not None and (isinstance(got, tuple) or isinstance(fresh, tuple)):
+                        if got != fresh and not (isinstance(got, tuple) and isinstance(fresh, tuple)):
+                            bad = "raises on one of the two only"
+                    elif fresh is not None and not near(got, fresh, scale):
+                        bad = "differs from a freshly constructed copy of the stored state"
+                    elif dat is not None and (isinstance(got, tuple) or not near(got, dat, scale)):
+                        bad = "measured point does not give the stored datum"
+                    if bad:
+                        ck.fail_case({**sig, "clause": "query after the call is answered from the stored data", "query": name, "how": bad, "outcome": out},
+                                     {"branch": str(qb), "row": qi, "at_pressure": after["p"][qi], "at_loading": after["l"][qi], "answer": str(got),
+                                      "fresh_copy_answers": str(fresh), "stored_datum": dat, "isotherm": iso_desc,
+                                      "after_call": {x: after[x] for x in ("labels", "p", "l")}, "slots_filled_before_call": list(had)})
+                        break
             # --- oracle 3: labels valid and data = original converted directly (SI tables)
             lab = after["labels"]
             valid = (lab[0] in ("absolute", "relative", "relative%") and (lab[0] != "absolute" or lab[1] in c01.PA)
@@ -318,12 +560,35 @@ def run(ck):
             if not close(tempK(lab, after["t"]), k0, rel=1e-12):
                 ck.fail_case({**sig, "clause": "temperature conserved"}, {"K_before": float(k0), "K_after": float(tempK(lab, after["t"]))})
             # --- oracle 4: a successful conversion that changed data drops the interpolators
-            if out == "ok" and had_cache and has_cache and (before["p"] != after["p"] or before["l"] != after["l"]):
-                ck.fail_case({**sig, "clause": "interpolator cache survived a conversion"}, {})
+            if (had[0] and has[0] or had[1] and has[1]) and (before["p"] != after["p"] or before["l"] != after["l"]):
+                ck.fail_case({**sig, "clause": "interpolator cache survived a conversion", "slot": "loading" if (had[0] and has[0]) else "pressure"},
+                             {"isotherm": iso_desc, "outcome": out})
             # --- back to the starting representation => original numbers
             if k == len(trace) - 1 and lab == s0["labels"]:
                 if not all(close(x, y, rel=1e-10) for x, y in zip(after["p"] + after["l"], s0["p"] + s0["l"])):
                     ck.fail_case({**sig, "clause": "back to start restores the numbers"}, {"start": s0["p"] + s0["l"], "end": after["p"] + after["l"]})
+            # --- correspondence of the specification of the combined call (Model/IsoSeq.lean `runUntilRefused (subSteps …)`) with the
+            #     real single-quantity calls carried out on the fresh copy
+            rs = seq_of.get((ci, k))
+            if rs is not None and exp is not None:
+                want, ref_step, ref_err, done = exp
+                parts = [x.strip() for x in rs.split("|")]
+                msteps = [] if parts[0] == "-" else parts[0].split(",")
+                mout = parts[1].split()
+                mo = "ok" if mout[0] == "ok" else ERRMAP.get(mout[1], mout[1])
+                mlab = [None if x == "~" else ("" if x == '""' else x) for x in parts[2].split()]
+                mp = [Fr(x) for x in parts[3].strip("[]").split(";")] if parts[3] != "[]" else []
+                ml = [Fr(x) for x in parts[4].strip("[]").split(";")] if parts[4] != "[]" else []
+                agree = (msteps == [s for s, _ in sub_steps(a)] and mo == (ref_err or "ok") and mlab == want["labels"] and len(mp) == len(want["p"])
+                         and all(close(x, y, rel=1e-10) for x, y in zip(want["p"], mp))
+                         and all(close(x, y, rel=1e-10, abs_=1e-290) for x, y in zip(want["l"], ml)))
+                n_seq += 1
+                if not agree:
+                    n_dis_seq += 1
+                    if n_dis_seq <= 3:
+                        ck.broken.append({"step": "correspondence Model/IsoSeq.lean (single calls in order, stopped at the first refusal)",
+                                          "what": {**sig, "single_calls_on_a_fresh_copy": [[s for s, _ in sub_steps(a)], ref_err or "ok", want["labels"], want["p"][:2], want["l"][:2]],
+                                                   "model": rs[:300]}})
             # --- correspondence with the Lean model
             r = rep_of.get((ci, k))
             if r is not None:
@@ -336,17 +601,25 @@ def run(ck):
                 agree = (mo == out and mlab == lab and len(mp) == len(after["p"])
                          and all(close(x, y, rel=1e-10) for x, y in zip(after["p"], mp))
                          and all(close(x, y, rel=1e-10, abs_=1e-290) for x, y in zip(after["l"], ml))
-                         and close(after["t"], Fr(parts[4]), rel=1e-12))
+                         and close(after["t"], Fr(parts[4]), rel=1e-12)
+                         and parts[5] == ("1" if has[0] else "0") + ("1" if has[1] else "0"))
                 if not agree:
                     n_dis += 1
                     if n_dis <= 3:
-                        ck.broken.append({"step": "correspondence Model/IsoState.lean", "what": {**sig, "implementation": [out, lab, after["p"][:2], after["l"][:2]], "model": r[:300]}})
+                        ck.broken.append({"step": "correspondence Model/IsoState.lean", "what": {**sig, "implementation": [out, lab, after["p"][:2], after["l"][:2], "slots " + ("1" if has[0] else "0") + ("1" if has[1] else "0")], "model": r[:300]}})
                     break       # the model state has diverged for the rest of this history
+    ck.cov["seconds"] = {"implementation_and_queries": round(t_impl - t_start, 1), "lean_driver": round(t_drv - t_impl, 1), "oracles_and_comparison": round(time.time() - t_drv, 1)}
     ck.cov["single_step_cases"] = n_single
-    ck.cov["histories"] = len(cases) - n_single
+    ck.cov["histories"] = n_hist_end - n_single
+    ck.cov["combined_call_cases"] = len(cases) - n_hist_end
     ck.cov["correspondence_disagreements"] = n_dis
+    ck.cov["correspondence_disagreements_combined_call_specification"] = n_dis_seq
+    ck.cov["combined_call_specification_compared"] = n_seq
     ck.cov["rule"] = ("(a) single steps: sampled label states (of the 10x27x19x2 = 10 260) x every argument class {absent, '', valid tokens, unknown, foreign-table} of "
                       "convert_pressure / convert_loading / convert_material / convert_temperature; (b) seeded histories of 1-25 calls incl. convert() with any subset of "
                       "arguments, valid-mostly and malformed streams, stub / N2 / property-less adsorbates, 1-12 rows with both branches and two extra columns; "
+                      "(c) combined convert() calls with an impossible argument at the pressure, material or loading position (unknown / foreign-family basis, omitted / foreign / unknown unit, "
+                      "property the adsorbate or material lacks) next to valid changes, repeats and absent arguments elsewhere, compared with the single calls on a fresh copy; "
+                      "around every call loading_at / pressure_at / spreading_pressure_at at a measured point on a seeded branch; "
                       "non-trivial = accepted call that changed labels or data; distinct = distinct (call, start labels, arguments)")
     ck.assumptions += ["pandas column assignment semantics", "CoolProp values enter as the constants returned by the real accessors"]
